@@ -51,11 +51,13 @@ type runConfig struct {
 type faultCfgJSON struct {
 	DropPPM, DupPPM, ReorderPPM, CorruptPPM, ZeroCRCPPM uint32
 	HoldMaxMs, LatencyUs, JitterUs                         int
+	AlignPPM                                               uint32 `json:",omitempty"` // delay a packet so that it arrives when a timer expires
 }
 
 func (f faultCfgJSON) toCfg() faultCfg {
 	return faultCfg{
 		dropPPM: f.DropPPM, dupPPM: f.DupPPM, reorderPPM: f.ReorderPPM, corruptPPM: f.CorruptPPM, zeroCRCPPM: f.ZeroCRCPPM,
+		alignPPM: f.AlignPPM,
 		holdMax: time.Duration(f.HoldMaxMs) * time.Millisecond,
 		latency: time.Duration(f.LatencyUs) * time.Microsecond,
 		jitter:  time.Duration(f.JitterUs) * time.Microsecond,
@@ -259,6 +261,10 @@ func (w *world) violate(prop, class, f string, a ...any) {
 			// the rest of this run would only show consequences of the recorded defect
 			w.knownStop = true
 		}
+		return
+	}
+	if w.knownStop {
+		// the run was ended by a recorded finding: what client tasks still observe while it is torn down is a consequence
 		return
 	}
 	if w.viol == nil {
@@ -755,9 +761,9 @@ func (w *world) teardown() {
 		}
 		w.leak = fmt.Sprintf("tasks alive after Close of both associations (%v): %s", r, strings.Join(names, ", "))
 	}
-	if savedViol != nil {
-		w.viol = savedViol
-	}
+	// whatever client tasks still complain about while the associations are being closed under them is a
+	// consequence of the teardown, not a verdict of the run
+	w.viol = savedViol
 	if abortedBefore != "" {
 		w.aborted = abortedBefore
 	}
@@ -818,6 +824,7 @@ type simStream struct {
 	readerDone bool
 	closed bool
 	openSeq int64
+	openAt  time.Duration
 }
 
 const ppiBase = 0x00100000
